@@ -1088,30 +1088,27 @@ impl<'a> CompactionIterator<'a> {
 
 			let current_visibility = self.find_earliest_visible_snapshot(seq_num)?;
 
-			// Check if this version is superseded by a newer version
-			let superseded = if let Some(newer_vis) = newer_version_visibility {
-				// Can we drop superseded versions in this scenario?
-				let snapshot_allows_drop = match current_visibility {
-					// Active snapshots exist - use visibility boundaries to decide
-					SnapshotVisibility::BoundedBySnapshot(_) => true,
-					SnapshotVisibility::NewerThanAllSnapshots => true,
-					// No snapshots - only drop if versioning is disabled
-					// (with versioning enabled, retention policy decides instead)
-					SnapshotVisibility::NoActiveSnapshots => !self.enable_versioning,
-				};
-
-				// Superseded = not latest AND in same visibility boundary AND allowed to drop
-				snapshot_allows_drop
-					&& !is_latest && self.same_visibility_boundary(newer_vis, current_visibility)
-			} else {
-				// This is the first (newest) version - can't be superseded
-				false
+			// Is this version hidden from every snapshot by a newer version in the
+			// same visibility boundary?
+			let hidden_by_newer = match newer_version_visibility {
+				Some(newer_vis) => {
+					!is_latest && self.same_visibility_boundary(newer_vis, current_visibility)
+				}
+				// This is the first (newest) version - can't be hidden
+				None => false,
 			};
 
+			// A hidden version is superseded (dropped outright) only when versioning
+			// is disabled. With versioning enabled the retention policy below decides,
+			// whether or not snapshots happen to be open during the compaction -
+			// otherwise an open reader would make history inside the retention
+			// window disappear.
+			let superseded = hidden_by_newer && !self.enable_versioning;
+
 			// Is this version required by an active snapshot?
-			// (Only matters if not already superseded by a newer version)
+			// (Only matters if not hidden by a newer version in the same boundary)
 			let required_by_snapshot =
-				!superseded && self.must_preserve_for_snapshot(current_visibility);
+				!hidden_by_newer && self.must_preserve_for_snapshot(current_visibility);
 
 			// ===== DETERMINE IF ENTRY IS STALE =====
 			// Stale entries are filtered out during compaction
